@@ -13,7 +13,7 @@ Definition L (c : ctx) (p : path) (s : stmt) : res (list expr) := lower_stmt cfg
 (* the namespace does not redirect names: module level, or a function without captured / global names *)
 Definition transparent (n : nsp) : Prop :=
   (forall comp i, get_load_name n comp i = inl (Name i)) /\
-  (forall x v, get_assign n x v = inl (NamedExpr x v)).
+  (forall v, get_assign n "x" v = inl (NamedExpr "x" v)).     (* the only user name the skeletons store to *)
 
 Lemma global_transparent n : n_kind n = NGlobal -> transparent n.
 Proof. intros H. split; intros; unfold get_load_name, get_assign; rewrite H; reflexivity. Qed.
@@ -1729,3 +1729,137 @@ Section All.
     exists f, v, σ'. split; [exact Hf|]. cbn in Tr', Po'. auto.
   Qed.
 End All.
+
+(* ====================================================================== *)
+(* function placement:  def f(): <skeleton>   followed by   r(f())        *)
+Section FunctionSim.
+  Variable orc : nat -> bool.
+  Notation Ev := (Ev orc).
+  Notation EvSeq := (EvSeq orc).
+
+  Definition fun_symbols : list symbol := [mkSym "x" true false false false false false].
+  Definition fun_symtab : symtab :=
+    ST KModule "top" 0 [mkSym "f" true false false false false false] [] [] [] []
+       [ST KFunction "f" 1 fun_symbols [] [] [] [] []].
+  Definition no_args : arguments := mkArgs [] [] None [] [] None [].
+  Definition fun_program (b : list sk) : list stmt :=
+    [SFunctionDef "f" 1 no_args (map embed b) []; SExpr (call (Name "r") [call (Name "f") []])].
+
+  Lemma fun_nsp : exists g fn, generate_nsp false fun_symtab = inl g /\ n_kind g = NGlobal /\
+    find_inner g "f" 1 = Some fn /\ n_kind fn = NFunction /\ n_id fn = 1 /\ transparent fn /\
+    n_zero_super fn = false /\ n_inner_nonlocal fn = [] /\ n_is_method fn = false.
+  Proof.
+    eexists _, _. split; [reflexivity|]. split; [reflexivity|]. split; [reflexivity|].
+    split; [reflexivity|]. split; [reflexivity|]. split; [|repeat split; reflexivity].
+    split.
+    - intros comp i. unfold get_load_name. cbn [n_kind n_inner_nonlocal n_outer_map n_id]. cbn.
+      destruct (mem i comp); reflexivity.
+    - intros v. reflexivity.
+  Qed.
+
+  Lemma Ev_call_fun σ g body r : lookup (s_env σ) g = Some (VFun body) -> Ev (MExpr body) σ r -> Ev (MExpr (call (Name g) [])) σ r.
+  Proof. intros Hl [f H]. exists (S f). cbn [run call]. rewrite Hl. exact H. Qed.
+
+  Lemma Ev_r_call σ g v σ1 res : Ev (MExpr (call (Name g) [])) σ (v, σ1) -> result_of v = Some res ->
+    Ev (MExpr (call (Name "r") [call (Name g) []])) σ (VNone, emit σ1 (EResult res)).
+  Proof.
+    intros [f H] Hr. exists (S f). unfold call in *. cbn [run]. cbn [String.eqb Ascii.eqb Bool.eqb]. rewrite H, Hr. reflexivity.
+  Qed.
+
+  Lemma guard_global g : n_kind g = NGlobal -> guard_of (mkCtx g [] false) = ((fun _ => false), None).
+  Proof. intros H. unfold guard_of. cbn [c_loops c_nsp]. rewrite H. reflexivity. Qed.
+
+  Theorem function_simulation : forall fuel b sx e,
+    wf_block false true b = true ->
+    exec_function orc fuel b = Some sx ->
+    lower_module cfg0 fun_symtab (fun_program b) = inl e ->
+    exists f v σ', run orc f (MExpr e) (mkSt [] [] 0) = Some (v, σ') /\ s_tr σ' = x_tr sx /\ s_pos σ' = x_pos sx.
+  Proof.
+    intros fuel b sx e Hwf Hex HL.
+    unfold lower_module in HL. destruct fun_nsp as [g [fn [Hg [Hk [Hfind [Hfk [Hfid [Hft [Hzs [Hin Him]]]]]]]]]].
+    cbn [cfg0 cfg_host_lt_312] in HL. rewrite Hg in HL. cbn [rbind] in HL. fold cfg0 in HL.
+    change (fun c0 p0 s0 => lower_stmt cfg0 c0 p0 s0) with L in HL.
+    set (c0 := mkCtx g [] false) in *.
+    destruct (lower_block cfg0 L c0 [] 0 0 (fun_program b)) as [es|] eqn:Eblk; [|discriminate].
+    cbn [rbind ret] in HL. injection HL as <-.
+    (* shape of the two statements *)
+    unfold fun_program in Eblk.
+    destruct (lower_block_cons _ _ _ _ _ _ _ Eblk) as [es1 [H1 Hshape]]. cbn [is_interrupt] in Hshape.
+    destruct Hshape as [rs [Hrs Hes]]. unfold c0 in Hes. rewrite (guard_global g Hk) in Hes. subst es.
+    destruct (lower_block_cons _ _ _ _ _ _ _ Hrs) as [es2 [H2 Hshape2]]. cbn [is_interrupt] in Hshape2. subst rs.
+    (* the call statement r(f()) *)
+    unfold L in H2. cbn [lower_stmt c_nsp c0] in H2. unfold tr, call in H2. cbn [transf rmap rbind ret] in H2.
+    unfold get_load_name in H2. rewrite Hk in H2. cbn [rbind ret] in H2. injection H2 as <-.
+    (* the def statement *)
+    unfold L in H1. cbn [lower_stmt c_nsp c0] in H1. rewrite Hfind, Hfk in H1. cbn [a_defaults a_kw_defaults no_args rmap rbind ret] in H1.
+    fold L in H1.
+    set (ru := uses_flag has_ret (map embed b)) in *.
+    set (cf := mkCtx fn [] ru) in *.
+    destruct (lower_block cfg0 L cf [0; 0] 0 0 (map embed b)) as [b'|] eqn:Eb; [|discriminate]. cbn [rbind] in H1.
+    rewrite Hzs, Hin, Him in H1. cbn [rev rbind ret andb app a_posonly a_args a_vararg a_kwonly a_kwarg no_args cfg_chain cfg0] in H1.
+    unfold get_assign in H1. rewrite Hk in H1. cbn [rbind ret] in H1. injection H1 as <-.
+    (* run the body *)
+    unfold exec_function in Hex.
+    destruct (exec orc fuel (XBlock b) (mkSst [] 0)) as [[ob sb]|] eqn:Eex; [|discriminate].
+    set (retv := retv_name (n_id fn)) in *. set (rflag := ret_flag (n_id fn)) in *.
+    (* the prelude *)
+    match goal with |- context [wrap cfg0 ((if ?c1 then _ else _) ++ (if ?c2 then _ else _) ++ (if ?c3 then _ else _) ++ _)] =>
+      destruct (Ev_prelude1 orc c1 "__ol_iter_wrapper" _ (mkSt [] [] 0) (or_intror eq_refl)) as [σa [E1 [T1 P1]]];
+      destruct (Ev_prelude1 orc c2 "importlib" _ σa (or_introl eq_refl)) as [σb [E2 [T2 P2]]];
+      destruct (Ev_prelude1 orc c3 "itertools" _ σb (or_introl eq_refl)) as [σp [E3 [T3 P3]]]
+    end.
+    assert (Tp : s_tr σp = []) by (rewrite T3, T2, T1; reflexivity).
+    assert (Pp : s_pos σp = 0) by (rewrite P3, P2, P1; reflexivity).
+    (* f := lambda: [...][-1] *)
+    set (fbody := Subscript (EList (NamedExpr retv cnone :: (if ru then [NamedExpr rflag cfalse] else []) ++ b' ++ [Name retv])) (cint (-1))).
+    set (σf := setv σp "f" (VFun fbody)).
+    assert (Hdef : Ev (MExpr (NamedExpr "f" (Lambda [] [] None [] [] None [] fbody))) σp (VFun fbody, σf)).
+    { exists 2. reflexivity. }
+    (* inside the call: retv := None, the return flag reset, then the body *)
+    set (σ1 := setv σf retv VNone).
+    set (σ2 := if ru then setv σ1 rflag (VBool false) else σ1).
+    assert (Hinit : EvSeq (NamedExpr retv cnone :: (if ru then [NamedExpr rflag cfalse] else [])) σf σ2).
+    { econstructor; [apply Ev_named_const; apply Ev_none|]. subst σ2. fold σ1.
+      destruct ru; [eapply EvSeq_one; apply Ev_named_const; apply Ev_false|apply ES_nil]. }
+    assert (Hne : retv <> rflag) by (subst retv rflag; unfold retv_name, ret_flag; apply ol_kind_ne; reflexivity).
+    assert (Hrv2 : lookup (s_env σ2) retv = Some VNone).
+    { subst σ2 σ1. destruct ru; cbn [setv s_env]; [rewrite lookup_bind_ne by congruence|]; apply lookup_bind_eq. }
+    assert (PreB : Pre cf [0; 0] b (mkSst [] 0) σ2).
+    { refine (conj Hft (conj I (conj _ (conj _ (conj _ (conj _ _)))))).
+      - unfold il, ifn. subst cf. cbn [c_loops c_nsp]. rewrite Hfk. exact Hwf.
+      - unfold Covers, guard_of, flag_used. subst cf. cbn [c_loops c_nsp c_ret_used]. rewrite Hfk. cbn [fst]. auto.
+      - split; [constructor|]. unfold Rclear. subst cf. cbn [c_ret_used Rname c_nsp]. fold rflag. intros Hr.
+        subst σ2. rewrite Hr. cbn [setv s_env]. apply lookup_bind_eq.
+      - subst σ2 σ1 σf. destruct ru; cbn [setv s_tr]; exact Tp.
+      - subst σ2 σ1 σf. destruct ru; cbn [setv s_pos]; exact Pp. }
+    destruct (proj1 (sim_all orc fuel) _ _ _ _ Eex cf [0; 0] 0 0 b' σ2 PreB Eb) as [σ' [EvB [Tr' [Po' Pst]]]].
+    assert (Hwfo : wf_spec false true ob) by exact (exec_wf orc _ _ _ _ _ Eex false true Hwf).
+    (* the value of retv after the body *)
+    assert (Hres : exists res, lookup (s_env σ') retv = Some (match res with Some k => VProbe k | None => VNone end) /\
+                               sx = xemit sb (EResult res)).
+    { destruct ob; cbn [Post] in Pst.
+      - exists None. split; [|injection Hex as <-; reflexivity]. destruct Pst as [_ RV]. unfold RVname in RV. subst cf. cbn [c_nsp] in RV. fold retv in RV. congruence.
+      - exfalso. destruct Hwfo as [W _]. specialize (W (or_introl eq_refl)). discriminate.
+      - exfalso. destruct Hwfo as [W _]. specialize (W (or_intror eq_refl)). discriminate.
+      - exists v. split; [|injection Hex as <-; reflexivity]. destruct Pst as [_ [_ RV]]. unfold RVname in RV. subst cf. cbn [c_nsp] in RV. fold retv in RV.
+        destruct v; [exact RV|congruence]. }
+    destruct Hres as [res [Hlook ->]].
+    assert (Hbody : Ev (MExpr fbody) σf (match res with Some k => VProbe k | None => VNone end, σ')).
+    { subst fbody.
+      replace (NamedExpr retv cnone :: (if ru then [NamedExpr rflag cfalse] else []) ++ b' ++ [Name retv])
+        with ((NamedExpr retv cnone :: (if ru then [NamedExpr rflag cfalse] else []) ++ b') ++ [Name retv])
+        by (cbn [app]; rewrite <- app_assoc; reflexivity).
+      eapply Ev_last; [|apply Ev_name; exact Hlook].
+      change (NamedExpr retv cnone :: (if ru then [NamedExpr rflag cfalse] else []) ++ b')
+        with ((NamedExpr retv cnone :: (if ru then [NamedExpr rflag cfalse] else [])) ++ b').
+      eapply EvSeq_app; [exact Hinit|exact EvB]. }
+    assert (Hcall : Ev (MExpr (call (Name "r") [call (Name "f") []])) σf (VNone, emit σ' (EResult res))).
+    { eapply Ev_r_call; [eapply Ev_call_fun; [subst σf; cbn [setv s_env]; apply lookup_bind_eq|exact Hbody]|].
+      destruct res; reflexivity. }
+    assert (Hprog : EvSeq [NamedExpr "f" (Lambda [] [] None [] [] None [] fbody); call (Name "r") [call (Name "f") []]] σp (emit σ' (EResult res))).
+    { econstructor; [exact Hdef|]. eapply EvSeq_one. exact Hcall. }
+    assert (Hall := EvSeq_app orc _ _ _ _ _ E1 (EvSeq_app orc _ _ _ _ _ E2 (EvSeq_app orc _ _ _ _ _ E3 Hprog))).
+    destruct (Ev_wrap orc cfg0 _ _ _ eq_refl Hall) as [v [f Hf]].
+    exists f, v, (emit σ' (EResult res)). split; [exact Hf|]. cbn [emit s_tr s_pos xemit x_tr x_pos]. split; congruence.
+  Qed.
+End FunctionSim.
